@@ -182,6 +182,100 @@ func buildPartial(res *racResult, h racHistory, mask uint64, rows uint8, upto in
 	return d
 }
 
+// runLongLivedClients: seeded long-lived light clients (non-full MapPollard) on forests of up to ~30 leaves;
+// returns the number of runs.  allDepths: undo every block newest-first (C06), otherwise only the last one.
+func runLongLivedClients(res *racResult, rng *rand.Rand, nl int, rowsSet []uint8, allDepths bool) int {
+	n := 0
+	// long-lived light clients on larger forests: seeded histories of up to ~30 leaves, random Remember flags, and
+	// between blocks the client asks to remember further live leaves through Verify(remember) / Ingest (including
+	// leaves that are roots at that moment); the invariant after every step, and after undoing the last block.
+	for i := 0; i < nl; i++ {
+		h := lightHistory(rng)
+		rows := rowsSet[rng.Intn(len(rowsSet))]
+		mask := rng.Uint64() & rng.Uint64()
+		if rng.Intn(4) == 0 {
+			mask = rng.Uint64()
+		}
+		n++
+		res.seen(fmt.Sprintf("long/%s/%d/%d", h.String(), mask, rows))
+		d := newPartial(rows)
+		var specs []*specForest
+		okRun := true
+		for k := range h {
+			specs = append(specs, d.spec.clone())
+			if !d.applyBlock(res, h, k, mask) {
+				okRun = false
+				break
+			}
+			if !d.checkInvariant(res, h, fmt.Sprintf("long-lived after-block-%d", k), true) {
+				okRun = false
+				break
+			}
+			if k == len(h)-1 || rng.Intn(3) == 0 {
+				continue
+			}
+			// remember up to 3 more live leaves, preferring the last leaf (a root of its own when n is odd)
+			var cand []Hash
+			for _, x := range d.spec.liveHashes() {
+				if !d.R[x] {
+					cand = append(cand, x)
+				}
+			}
+			if len(cand) == 0 || d.spec.n < 2 {
+				continue
+			}
+			S := []Hash{cand[len(cand)-1]}
+			for j := 0; j < 2 && len(cand) > 1; j++ {
+				if x := cand[rng.Intn(len(cand)-1)]; x != S[0] && (len(S) < 2 || x != S[1]) {
+					S = append(S, x)
+				}
+			}
+			pr, _ := d.spec.CanonProof(S)
+			mode := []string{"verify-remember", "ingest"}[rng.Intn(2)]
+			var e error
+			pan := safely(func() {
+				if mode == "ingest" {
+					e = d.m.Ingest(S, pr)
+				} else {
+					e = d.m.Verify(S, pr, true)
+				}
+			})
+			res.eval("MapPollard." + mode + ".rac.total")
+			if pan != "" || e != nil {
+				res.fail("MapPollard."+mode+".rac.total", d.in(h, "mask", mask, "after_block", k, "subset", shortHashes(S)), fmt.Sprintf("panic=%q err=%v", pan, e), "ok")
+				okRun = false
+				break
+			}
+			for _, x := range S {
+				d.R[x] = true
+			}
+			if !d.checkInvariant(res, h, fmt.Sprintf("long-lived after-block-%d after-%s %s", k, mode, shortHashes(S)), true) {
+				okRun = false
+				break
+			}
+		}
+		if !okRun || len(h) == 0 {
+			continue
+		}
+		for k := len(h) - 1; k >= 0; k-- {
+			bd := d.bds[k]
+			var e error
+			pan := safely(func() { e = d.m.Undo(uint64(len(bd.adds)), bd.proof, bd.delHashes, bd.prevRoots) })
+			res.eval("MapPollard.Undo.rac.accepts")
+			if pan != "" || e != nil {
+				res.fail("MapPollard.Undo.rac.accepts", d.in(h, "mask", mask, "run", "long-lived", "undo_block", k), fmt.Sprintf("panic=%q err=%v", pan, e), "undone")
+				break
+			}
+			d.spec = specs[k]
+			d.R = d.prev[k]
+			if !d.checkInvariant(res, h, fmt.Sprintf("long-lived after-undo-of-block-%d", k), false) || !allDepths {
+				break
+			}
+		}
+	}
+	return n
+}
+
 func TestRAC_C09(t *testing.T) {
 	res := newRacResult("C09")
 	maxLeaves, maxBlocks := 5, 3
@@ -324,8 +418,13 @@ func TestRAC_C09(t *testing.T) {
 			d.checkInvariant(res, h, "from-roots after-verify-remember "+shortHashes(S), true)
 		}
 	})
+	nl := 150
+	if res.thorough() {
+		nl = 2500
+	}
+	n += runLongLivedClients(res, rng, nl, rowsSet, false)
 	res.Exhaustive = false
-	res.Rule = fmt.Sprintf("non-full MapPollard with TotalRows in %v: every history with <= %d leaves / <= %d blocks and every Remember-flag vector (deletions first verified with remember); after every block the representation invariant (true hashes at every stored position; every remembered leaf cached at its position and provable with the canonical proof; nothing stored beyond roots, remembered leaves and the positions on their paths/proof paths); at the final state Prune of cached subsets, Verify(remember)/Ingest of live subsets then Prune, Undo of the last block (sampled 1/3, 1/5, 1/2 of the states in the quick tier); plus NewMapPollardFromRoots at every reachable 2-block state. distinct = (history, mask, rows) triples", rowsSet, maxLeaves, maxBlocks)
+	res.Rule = fmt.Sprintf("(+%d seeded long-lived light clients on forests of up to ~30 leaves: random Remember flags, further live leaves remembered between blocks through Verify(remember)/Ingest, invariant after every step and after undoing the last block) ", nl) + fmt.Sprintf("non-full MapPollard with TotalRows in %v: every history with <= %d leaves / <= %d blocks and every Remember-flag vector (deletions first verified with remember); after every block the representation invariant (true hashes at every stored position; every remembered leaf cached at its position and provable with the canonical proof; nothing stored beyond roots, remembered leaves and the positions on their paths/proof paths); at the final state Prune of cached subsets, Verify(remember)/Ingest of live subsets then Prune, Undo of the last block (sampled 1/3, 1/5, 1/2 of the states in the quick tier); plus NewMapPollardFromRoots at every reachable 2-block state. distinct = (history, mask, rows) triples", rowsSet, maxLeaves, maxBlocks)
 	res.Scope = fmt.Sprintf("runs=%d", n)
 	res.write(t)
 }
